@@ -170,13 +170,17 @@ pub fn hx_plan(prop: &'static str, tier: &str) -> Vec<HxCfg> {
                 c.max_depth = 7;
                 v.push(c);
                 v.push(depth(HxCfg::new(prop, "3 ids, 2 labels, 2 data", 2, 3, &[0, 1, 2], &[0, 3], &[0, 1]), 7));
-                v.push(all_ops(a3(prop, "3 ids, all ops")));
+                let mut m = all_ops(a3(prop, "3 ids, all ops (merges incl. a tree carrying the empty datum)"));
+                m.merges = vec![0, 1, 2, 3];
+                v.push(m);
                 v.push(depth(a4(prop, "4 ids"), 6));
                 v.push(seeded5(prop, "5 ids from seeds", 3));
                 v.push(depth(HxCfg::new(prop, "3 ids, two labels that print alike ('a b' and 'ab')", 2, 3, &[0, 1, 2], &[8, 9], &[0]), 6));
             } else {
                 v.push(wall(depth(c, 10), 900));
-                v.push(wall(all_ops(a3x(prop, "3 ids, 2 labels, 2 data, all ops")), 1500));
+                let mut m = all_ops(a3x(prop, "3 ids, 2 labels, 2 data, all ops (merges incl. a tree carrying the empty datum)"));
+                m.merges = vec![0, 1, 2, 3];
+                v.push(wall(m, 1500));
                 v.push(wall(a4(prop, "4 ids"), 1500));
                 v.push(wall(depth(a256(prop, "ids 0,5,254,255 in 256 slots, Sodg<16>"), 7), 900));
                 v.push(wall(seeded5(prop, "5 ids from seeds", 5), 600));
@@ -286,7 +290,7 @@ pub fn hx_plan(prop: &'static str, tier: &str) -> Vec<HxCfg> {
             };
             if quick(tier) {
                 vec![
-                    l(depth(all_ops(HxCfg::new(prop, "3 ids, 2 labels (A = Sodg<2>, 3 slots)", 2, 3, &[0, 1, 2], &[0, 1], &[0])), 5), &[(2, 4), (3, 4), (4, 8), (5, 16), (6, 32), (7, 64), (8, 128), (16, 3), (16, 256)], 2),
+                    l(depth(all_ops(HxCfg::new(prop, "3 ids, 2 labels: α10 (an index above N) and x (A = Sodg<2>, 3 slots)", 2, 3, &[0, 1, 2], &[7, 1], &[0])), 5), &[(2, 4), (3, 4), (4, 8), (5, 16), (6, 32), (7, 64), (8, 128), (16, 3), (16, 256)], 2),
                     l(depth(a4(prop, "4 ids (A = Sodg<2>, 4 slots)"), 5), &[(9, 8), (10, 9), (11, 17), (12, 33), (13, 65), (14, 129), (15, 255), (16, 257), (2, 512), (2, 1024)], 1),
                     l(depth(HxCfg::new(prop, "ids 0, 300, 511 (A = Sodg<2>, 512 slots)", 2, 512, &[0, 300, 511], &[0], &[0]), 4), &[(3, 513), (16, 1024)], 1),
                     l(all_ops(HxCfg::new(prop, "3 ids, 1 label (A = Sodg<1>, 3 slots)", 1, 3, &[0, 1, 2], &[0], &[0])), &[(16, 4)], 1),
@@ -300,7 +304,7 @@ pub fn hx_plan(prop: &'static str, tier: &str) -> Vec<HxCfg> {
                 }
                 vec![
                     wall(l(depth(all_ops(HxCfg::new(prop, "3 ids, 1 label (A = Sodg<1>, 3 slots)", 1, 3, &[0, 1, 2], &[0], &[0])), 7), &all, 2), 1500),
-                    wall(l(depth(all_ops(HxCfg::new(prop, "3 ids, 2 labels (A = Sodg<2>, 3 slots)", 2, 3, &[0, 1, 2], &[0, 1], &[0, 1])), 6), &all.iter().copied().filter(|(n, _)| *n >= 2).collect::<Vec<_>>(), 2), 1500),
+                    wall(l(depth(all_ops(HxCfg::new(prop, "3 ids, 2 labels: α10 (an index above N) and x (A = Sodg<2>, 3 slots)", 2, 3, &[0, 1, 2], &[7, 1], &[0, 1])), 6), &all.iter().copied().filter(|(n, _)| *n >= 2).collect::<Vec<_>>(), 2), 1500),
                     wall(l(depth(a4(prop, "4 ids (A = Sodg<2>, 4 slots)"), 7), &[(16, 256), (2, 5), (9, 8), (3, 64), (16, 4)], 1), 1200),
                     wall(l(all_ops(a3(prop, "3 ids, all ops, to closure")), &[(16, 256), (2, 4)], 1), 1200),
                 ]
